@@ -130,7 +130,7 @@ Proof.
         intros _. repeat split. intro H; discriminate H.
       * apply String.eqb_neq in En. split; [intros [_ [H _]]; discriminate H|].
         intros [t' [l' [H1 [H2 H3]]]]. inversion H1; subst t'. rewrite E in H2. inversion H2; subst l'. contradiction.
-    + split; [intros [H _]; discriminate H|]. intros [t' [l' [H1 [H2 _]]]]. inversion H1; subst t'. rewrite E in H2. discriminate H2.
+    + split; [intros [_ [H _]]; discriminate H|]. intros [t' [l' [H1 [H2 _]]]]. inversion H1; subst t'. rewrite E in H2. discriminate H2.
   - simpl. split; [intros [_ [_ H]]; exfalso; apply H; reflexivity | intros [t [l [H _]]]; discriminate H].
 Qed.
 
